@@ -168,6 +168,11 @@ def task_batch(task):
         rng = random.Random((src[1] if src[0] != "corpus" else sum(map(ord, op["sid"]))) ^ 0xC15)
         n = rng.choice([2, 3, 4, 6]) if not big else 3
         variants = [knob_vector(rng, big) for _ in range(n)]
+        if big:
+            # results larger than one hand-over batch of the engine: always one run under a hard
+            # memory limit whose tables are stored in a non-trivial physical layout
+            variants[0] = {"env": {"VTL_MEMORY_LIMIT": rng.choice(["256MB", "1GB", "2000000000"]),
+                                   "VTL_USE_IN_MEMORY_DB": rng.choice(["0", "1"])}, "permute": rng.randrange(1, 1 << 30)}
         variants.insert(rng.randrange(len(variants) + 1), {"env": {}})      # a repeated default run somewhere
         if rng.random() < 0.6:                                               # an unrelated run in between
             variants.insert(rng.randrange(1, len(variants) + 1),
@@ -269,7 +274,7 @@ def run(ctx):
     n_corpus = 120 if quick else len(cps)
     items = [("gen", rng.randrange(1 << 30)) for _ in range(n_gen)]
     items += [("corpus", e) for e in rng.sample(cps, min(n_corpus, len(cps)))]
-    bigs = [("big", rng.randrange(1 << 30), rng.choice([5000, 20000] if quick else [20000, 100000, 300000])) for _ in range(6 if quick else 120)]
+    bigs = [("big", rng.randrange(1 << 30), rng.choice([5000, 20000, 150000] if quick else [20000, 100000, 150000, 300000])) for _ in range(6 if quick else 120)]
     rng.shuffle(items)
     items = bigs + items
     size = 5
